@@ -83,7 +83,11 @@ class Field(object):
         # if the field belongs to an instance and was unpacked already,
         # we return the actual byte-length of the resulting struct:
         try:
-            return len(self.instance[self.name])
+            v = self.instance[self.name]
+            if self.count > 0:
+                # an array of (possibly variable-length) structures or strings:
+                return sum((len(x) for x in v), 0)
+            return len(v)
         except Exception:
             pass
         # otherwise we return the natural size of the field's type,
@@ -171,8 +175,18 @@ class Field(object):
 
     def pack(self, value, psize=0):
         if self.count > 0:
-            return b"".join([self.type().pack(v,psize) for v in value])
-        return self.type.pack(value,psize)
+            return b"".join([self._pack_one(v,psize) for v in value])
+        return self._pack_one(value,psize)
+
+    def _pack_one(self, v, psize=0):
+        # an unpacked (nested) structure packs its own values,
+        # a typedef'd value is the value of the typedef's only field:
+        if isinstance(v,StructCore):
+            return v.pack(None,psize)
+        t = self.type()
+        if t.typedef:
+            return t.pack([v],psize)
+        return t.pack(v,psize)
 
     def copy(self,obj=None):
         cls = self.__class__
@@ -567,7 +581,9 @@ class CntField(RawField):
 
     def size(self, psize=0):
         try:
-            return struct.calcsize(self.format(psize))
+            # the counter and the elements are unpacked with self.order,
+            # ie. without the padding of the native alignment:
+            return struct.calcsize(self.order + self.format(psize))
         except Exception:
             return float("Infinity")
 
@@ -603,8 +619,11 @@ class CntField(RawField):
     def pack(self, value, psize=0):
         if not hasattr(self,"fcount"):
             self.fcount = self.count
-        self.count = len(value)
-        if isinstance(value,list):
+        self.count = len(value) if value is not None else 0
+        if self.count == 0:
+            # only the counter is present:
+            res = struct.pack(self.order + self.format(psize), 0)
+        elif isinstance(value,(list,tuple)):
             res = struct.pack(self.order + self.format(psize),
                               self.count, *value)
         else:
